@@ -18,7 +18,7 @@ LEVEL_TEXT = ('all multisets of up to 3 (thorough: 4) entries drawn from 15 date
               'purged by the real trash-empty for 7 DAYS values in 3 kinds of trash dir; purged set must equal the reference set, removals whole, survivors byte-identical')
 LEVEL_NOTE = 'trusted: R6 (reference age rule), the fake clock / TRASH_DATE seams; time zones and DST are out of scope (naive local times, as in the code)'
 RULE = ('DAYS in {none,0,1,2,7,365,4000000} x multisets of size 1..3 (thorough 1..4) over 15 date classes x {home, .Trash/uid, .Trash-uid, entries spread over all three} x clock '
-        'seam {fake datetime.now, TRASH_DATE}; each world also holds an orphan payload and a non-.trashinfo file; non-trivial = at least one entry was '
+        'seam {fake datetime.now, TRASH_DATE}; entry names: ordinary, hidden (.e1), trailing blank, two leading dots, by position; each world also holds an orphan payload and a non-.trashinfo file; non-trivial = at least one entry was '
         'examined against the threshold; distinct = (DAYS, date class, observed state) triples')
 NOW = '2024-05-06T07:08:09'
 DAYS = [None, 0, 1, 2, 7, 365, 4000000]
@@ -78,7 +78,7 @@ def run_case(c):
         t = tds[i % len(tds)]
         raw = '[Trash Info]\nPath=%s\n' % ('/home/u/w/e%d' % i if t == scen.HOME_TRASH else 'w/e%d' % i)
         raw += ''.join(l + '\n' for l in date_lines(cls, c['days']))
-        nm = 'e%d' % i
+        nm = ('e%d', '.e%d', 'e%d ', '..e%d')[i % 4] % i          # ordinary, hidden, trailing blank, two leading dots
         scen.add_trashed(W, t, nm, None, raw=raw, payload=('file', 'ldang', 'tree', 'ldir', 'empty')[(i + len(c['ms'])) % 5])
         ents.append((nm, cls, raw.encode(), t))
     if c['days'] is not None and c['days'] <= 365:
